@@ -7,6 +7,7 @@ import (
 	"math/rand"
 	"sort"
 	"strings"
+	"time"
 
 	"github.com/openebs/jiva/types"
 
@@ -722,8 +723,46 @@ func (g *gen) doSnap() {
 		}
 	}
 	im.w.ResetLog()
+	// sometimes another request arrives while Snapshot is inside its duplicate-name lookup (a REST
+	// round trip to a replica): Snapshot holds the controller lock across the whole call, so the
+	// other request must take effect after it — if it takes effect during the lookup, the guard
+	// "all RF replicas are RW" was evaluated for a membership that no longer holds at the fan-out
+	var intruder string
+	intruded, launched := false, false
+	done := make(chan struct{})
+	if reps := g.replicas(); existing == "0" && len(reps) > 0 && im.c.RWReplicaCount == im.rf && g.rng.Float64() < 0.6 {
+		intruder = reps[g.rng.Intn(len(reps))].Address
+		im.w.OnHTTP = func(string) {
+			launched = true
+			go func() { im.c.RemoveReplica(intruder); close(done) }()
+			select {
+			case <-done:
+				intruded = true
+			case <-time.After(150 * time.Millisecond):
+			}
+		}
+	}
 	_, err := im.c.Snapshot(name)
-	g.emit(fmt.Sprintf("snap %s | %s %s", name, existing, orDash(fails)), classify(err, "RWReplicaCount", "already exists"))
+	snapLine := fmt.Sprintf("snap %s | %s %s", name, existing, orDash(fails))
+	snapRes := classify(err, "RWReplicaCount", "already exists")
+	im.w.OnHTTP = nil
+	if intruder != "" && launched {
+		select {
+		case <-done:
+		case <-time.After(5 * time.Second):
+		}
+		first, second, r1, r2 := snapLine, "rm "+intruder, snapRes, "ok"
+		if intruded {
+			first, second, r1, r2 = second, first, r2, r1
+		}
+		g.lines = append(g.lines, first)
+		g.outs = append(g.outs, "*|"+r1+" ; ")
+		g.lines = append(g.lines, second)
+		g.outs = append(g.outs, "~|"+g.im.state(r2))
+		g.feat["snapshot-overlapped-by-remove"] = true
+	} else {
+		g.emit(snapLine, snapRes)
+	}
 	g.feat["snapshot"] = true
 }
 
